@@ -241,7 +241,22 @@ pub fn execute(c: &HistCase, opts: &Opts) -> HistObs {
         let id = if s.boolean { (i as u32) & 1 } else { 0x7A00 + i as u32 };
         // (the body of a forwarder lives at +48, i.e. in the slot of neighbour +3: a live,
         // never-named function whose bytes the snapshot diff watches)
-        a.put_shaped(addr, id, s.shape);
+        // shape 5: a function that counts its calls in a word of its own page, living in an arena
+        // that stays writable and executable (JIT-style code): "behaves as before" after the
+        // injector is gone includes that it can still write there
+        let self_counting = s.shape == 5 && !s.boolean;
+        if self_counting {
+            let cpos = base + if off >= 0x800 { 0x100 } else { 0xF00 };
+            let rel = (cpos as i64 - (addr as i64 + 6)) as i32;
+            let mut code = vec![0xFFu8, 0x05];
+            code.extend_from_slice(&rel.to_le_bytes());
+            code.push(0xB8);
+            code.extend_from_slice(&id.to_le_bytes());
+            code.push(0xC3);
+            a.put(addr, &code);
+        } else {
+            a.put_shaped(addr, id, s.shape);
+        }
         // two fakes in the same arena (near the target): one at the very start of a page, one
         // unaligned; both are executable memory the injector does not own
         let f0 = if off >= 256 { base } else { base + PAGE };
@@ -257,7 +272,11 @@ pub fn execute(c: &HistCase, opts: &Opts) -> HistObs {
         if room(f1) && a.put_ret_id(f1, v1 as u32) {
             arena_fakes.push((f1, v1));
         }
-        a.seal();
+        if self_counting {
+            unsafe { ip::sys_mprotect(base, 2 * PAGE, libc::PROT_READ | libc::PROT_WRITE | libc::PROT_EXEC) };
+        } else {
+            a.seal();
+        }
         o.arena_pages.push(base as u64);
         o.arena_pages.push((base + PAGE) as u64);
         arenas.push(a);
@@ -291,7 +310,7 @@ pub fn execute(c: &HistCase, opts: &Opts) -> HistObs {
                     let si = which as usize % c.synth.len();
                     let ti = n_real + si;
                     // only plain `mov eax, id; ret` targets are rewritten (non-boolean, shape 0)
-                    if c.synth[si].shape % 5 == 0 && !c.synth[si].boolean {
+                    if c.synth[si].shape == 0 && !c.synth[si].boolean {
                         let addr = tg[ti].addr;
                         let new_id = 0x7C00 + (salt as u32 % 0x300);
                         unsafe {
@@ -501,9 +520,14 @@ pub fn strategy_rw(max_lifetimes: usize, max_steps: usize, synth_bias_last_slot:
     } else {
         prop_oneof![3 => 0u16..0x1000, 1 => Just(0xFF0u16)].boxed()
     };
-    let shape = prop_oneof![3 => Just(0u8), 2 => Just(1u8), 1 => Just(2u8), 1 => Just(3u8), 1 => Just(4u8)];
+    let shape = if rewrites {
+        // (C02 only: the snapshot-based judges would see the counter word change)
+        prop_oneof![3 => Just(0u8), 2 => Just(1u8), 1 => Just(2u8), 1 => Just(3u8), 1 => Just(4u8), 2 => Just(5u8)].boxed()
+    } else {
+        prop_oneof![3 => Just(0u8), 2 => Just(1u8), 1 => Just(2u8), 1 => Just(3u8), 1 => Just(4u8)].boxed()
+    };
     let fine = prop_oneof![3 => Just(0u8), 2 => 1u8..16, 1 => 11u8..16];
-    let synth = prop::collection::vec((0u8..5, any::<u64>(), off, prop::bool::weighted(0.3), shape, fine).prop_map(|(class, page, off, boolean, shape, fine)| SynthSpec { class, page, off: if shape % 5 == 0 { off } else { off.min(0xF80) }, boolean, shape, fine }), 0..=3);
+    let synth = prop::collection::vec((0u8..5, any::<u64>(), off, prop::bool::weighted(0.3), shape, fine).prop_map(|(class, page, off, boolean, shape, fine)| SynthSpec { class, page, off: if shape % 5 == 0 && shape != 5 { off } else { off.min(0xF80) }, boolean, shape, fine }), 0..=3);
     // few targets so that repetition on one target is common
     let step = prop_oneof![
         3 => (0u8..12, kind_strategy(), 0u8..4).prop_map(|(t, kind, k)| Step::Install { t, kind, k }),
